@@ -3,7 +3,7 @@ from translators import tr_c12
 
 PID = "C12"
 CLAIM = True
-MANIFEST_TEXT = ("Lean 4 theorems (27 obligations) about a line-by-line transcription of readINITree, ParameterTree's "
+MANIFEST_TEXT = ("Lean 4 theorems (35 obligations) about a line-by-line transcription of readINITree, ParameterTree's "
                  "operator[]/hasKey/hasSub/sub (const and non-const)/get, readOptions/readNamedOptions and Parser<T>.  The documented INI "
                  "dialect is formalised as an item grammar (blank, comment, [group] header, assignment with blanks, either quote, "
                  "multi-line value, trailing comment) with an explicit lexical predicate; proved for ALL documents of the dialect, all "
@@ -24,17 +24,32 @@ MANIFEST_TEXT = ("Lean 4 theorems (27 obligations) about a line-by-line transcri
                  "rendered documents, raw documents, streams failing after n bytes, argument vectors, value strings for 50 target types "
                  "(incl. float bit-exact, char, FieldVector<double>) under two global locales, tree queries incl. group creation) with "
                  "independent reference oracles deciding the property, every readINITree overload (stream/file, with/without default "
-                 "arguments, returning/filling) cross-checked on every document, plus a hostile byte stream under ASan/UBSan.")
+                 "arguments, returning/filling) cross-checked on every document, plus a hostile byte stream under ASan/UBSan.  "
+                 "Round four: a translator (tools/translators/tr_c12.py) re-reads on every run the DATA of the three source files - "
+                 "the six blank-set literals, the separator and substr offsets of the dotted-key descent in hasKey/hasSub/sub/"
+                 "operator[], the switch labels, marker characters, quote characters, substr offsets, trims, join string and the "
+                 "duplicate/overwrite statement of readINITree, the option markers/offsets/help words of readOptions and "
+                 "readNamedOptions, the Parser<bool> word table and fallback type, the trailing-text conditions and classic-locale "
+                 "imbue of Parser<T>/parseRange, the shape of bitset/vector/get-with-default - into Gen/C12.lean; six src_* theorems "
+                 "state that the model is written with exactly these values (an edit of one of them breaks an obligation and the "
+                 "check searches for a failing input).  float_accept_iff: get<double|float> succeeds IFF blanks + one floating "
+                 "literal + blanks whose pieces evaluate to a finite number, returning that evaluation (lexer soundness and "
+                 "completeness).  bool_array_spec: std::array<bool,n> = exactly n integer literals with value 0/1.  New target "
+                 "types in the run: long, unsigned long, signed/unsigned char, std::array<bool,0..3>; the second global locale now "
+                 "also has a caseless ctype facet (Parser<bool> must lower-case with the classic locale).")
 MANIFEST_NOTE = ("Trusted: Lean kernel (+propext/Classical.choice/Quot.sound), the hand-written model's fidelity (differential "
-                 "execution only; no translator), the harness' reference tree / strict dialect recogniser / numeric recognisers "
+                 "execution; the translator ties the data - character sets, markers, offsets, word table, conditions - not the control flow), the harness' reference tree / strict dialect recogniser / numeric recognisers "
                  "(std::from_chars for floating values), g++/libstdc++/glibc, ASan/UBSan.  operator>> is libstdc++'s: its "
                  "classic-locale integer, floating, word and char extraction are modelled; float/double values are compared bit-exactly "
-                 "through a correctly-rounded conversion in the model; proved for floating targets is only that acceptance implies the "
-                 "literal syntax (malformed_float_is_range_error_partial), nothing about the rounded value.  Hostile/"
+                 "through a correctly-rounded conversion in the model; proved for floating targets is acceptance iff literal syntax "
+                 "with finite evaluation (float_accept_iff), but nothing about the rounding function roundToBin itself (no theorem that "
+                 "it is the nearest representable number).  The translator (regex/mini-parsers on the comment-stripped source, no C++ "
+                 "front end) canonicalises set order, commuted ||-alternatives, 'c' vs \"c\", k+v vs v+k, position-variable names and "
+                 "fall-through case labels; any other deviation from its patterns is a loud TranslateError.  Hostile/"
                  "out-of-dialect byte streams: only 'no crash, no hang (60 s alarm), success or Dune exception' is checked, the model is "
                  "not compared there (it is nevertheless total: parse_total).  Not claimed: '#' inside quoted values, a quote character "
                  "inside a value quoted with the same character, a negative literal for an unsigned target (answer masked as 'noclaim'), "
-                 "names that are both value and group (modelled, oracle abstains), long double, std::array<bool,n>, the C-library "
+                 "names that are both value and group (modelled, oracle abstains), long double, report()/className texts, the C-library "
                  "locale (setlocale; only C/POSIX is installed - the global C++ locale is varied).  parse_render is stated for "
                  "overwrite=true; for overwrite=false into an empty tree the same values follow from overwrite_flag_spec and the "
                  "same key order from keys_in_first_appearance_order.  The model describes the repaired code (repo commits 27625ff parseRange trailing-text check, "
@@ -56,9 +71,13 @@ RULE = ("cases: rt = random key/value hierarchy (shared groups, depth<=4) spelle
         "tq = tree built by operator[] and non-const sub(), queried incl. defaults through all get overloads; bads = dialect "
         "document on a stream that fails after n bytes; hostile = random bytes, unbalanced quotes, huge lines; rt/ini also run "
         "every readINITree overload (file name / stream, default arguments) and require identical results. "
+        "round four: key components and values may contain every byte the dialect allows in every position; positional "
+        "arguments that look like options (-c, -cc); target types long/unsigned long/signed char/unsigned char/"
+        "std::array<bool,0..3>; string texts padded with \\v\\f; second locale with a caseless ctype facet. "
         "distinct = distinct op lines; non-trivial = the independent oracle made a claim (inside the dialect / syntax)")
 ASSUMPTIONS = [
-    "the Lean model lean/DuneVerif/Model/C12.lean is hand-written; its fidelity to parametertree.{hh,cc}/parametertreeparser.cc rests on this differential run",
+    "the Lean model lean/DuneVerif/Model/C12.lean is hand-written; the data it is written with (character sets, markers, offsets, word table, conditions) is tied to the source by tr_c12.py + the src_* theorems, its control flow only by this differential run",
+    "tr_c12.py reads the source with regular expressions and small parsers (no C++ front end); what it canonicalises is listed in its docstring",
     "bytes are modelled as Lean Char values < 256; std::string/std::istringstream/getline behave as specified",
     "operator>> for built-in integers/double/std::string is libstdc++'s classic-locale num_get (modelled, not verified); strtod is correctly rounded",
     "the hostile stream is checked for termination/exception class only (60 s alarm per op)",
